@@ -22,6 +22,7 @@ import (
 	"github.com/piotrnar/gocoin/lib/secp256k1"
 	"verif/lib/vlib"
 	"verif/ref/refec"
+	"verif/ref/refscript"
 )
 
 const ID = "C03"
@@ -225,23 +226,20 @@ func (w *wk) judge(pred, sub string, exp bool, reason string, got bool, pan inte
 	run.Violation(class, what, wit)
 }
 
-// ecdsa runs one ECDSA case. trailing = number of bytes after the DER sequence that are tolerated.
+// ecdsa runs one ECDSA case. The signature bytes are read the way the consensus verifier reads them
+// (ecdsa_signature_parse_der_lax, independent port in ref/refscript): the property speaks about r, s and the
+// equation, not about the strictness of the encoding (that is C01's DERSIG/STRICTENC/LOW_S). `trailing` is kept
+// for the generators' bookkeeping only: bytes behind S are ignored by that parser.
 func (w *wk) ecdsa(sub string, pub, sig, msg []byte, trailing int) {
 	w.note("ecdsa", sub, hx(pub), hx(sig), hx(msg))
-	r, s, st := refec.ParseDER(sig, trailing)
 	var exp bool
 	var reason string
-	switch st {
-	case refec.DERAmbiguous:
-		w.run.Inc("skipped_ambiguous_der/" + w.fam)
-		// still executed: must not panic
-		if _, pan := callEcdsa(pub, sig, msg); pan != nil {
-			w.run.Violation("ecdsa-panics@"+w.fam, fmt.Sprintf("EcdsaVerify panicked: %v", pan), map[string]interface{}{"pub": hx(pub), "sig": hx(sig), "msg": hx(msg)})
+	if r, s, ok := refscript.ParseDERLax(sig); !ok {
+		exp, reason = false, "der-unparsable"
+	} else {
+		if _, _, st := refec.ParseDER(sig, trailing); st != refec.DEROK {
+			w.run.Inc("non_strict_der_judged_by_lax_parser/" + w.fam)
 		}
-		return
-	case refec.DERMalformed:
-		exp, reason = false, "der-malformed"
-	default:
 		exp, reason = refec.ECDSAVerify(pub, r, s, msg)
 	}
 	got, pan := callEcdsa(pub, sig, msg)
